@@ -19,6 +19,7 @@
 #include <unistd.h>
 #include <chrono>
 #include <cstring>
+#include <cerrno>
 #include <cctype>
 #include <cmath>
 #include <strings.h>
@@ -873,11 +874,13 @@ public:
             for (uint64_t i = 0;; i++) { Val b = load(s, Val(64, a[1].c + i), 8); store(s, Val(64, a[0].c + i), b); if (!b.sym && !b.c) break; if (b.sym) throw EngineError("sym strcpy"); }
             r = a[0]; return true; };
         ext["strtol"] = [this](State& s, CallBase&, std::vector<Val>& a, Val& r) {
-            std::string t = readCStr(s, a[0].c); char* e; long v = strtol(t.c_str(), &e, (int)a[2].c);
+            std::string t = readCStr(s, a[0].c); char* e; errno = 0; long v = strtol(t.c_str(), &e, (int)a[2].c);
+            if (errno) store(s, Val(64, errnoAddr), Val(32, (uint64_t)errno));   // errno is part of the modelled process state (set, never cleared, as in libc)
             if (a[1].c) store(s, a[1], Val(64, a[0].c + (e - t.c_str())));
             r = Val(64, (uint64_t)v); return true; };
         ext["strtod"] = [this](State& s, CallBase&, std::vector<Val>& a, Val& r) {
-            std::string t = readCStr(s, a[0].c); char* e; double v = strtod(t.c_str(), &e);
+            std::string t = readCStr(s, a[0].c); char* e; errno = 0; double v = strtod(t.c_str(), &e);
+            if (errno) store(s, Val(64, errnoAddr), Val(32, (uint64_t)errno));
             if (a[1].c) store(s, a[1], Val(64, a[0].c + (e - t.c_str())));
             uint64_t u; memcpy(&u, &v, 8); r = Val(64, u); return true; };
         ext["snprintf"] = [this](State& s, CallBase&, std::vector<Val>& a, Val& r) {
